@@ -660,10 +660,20 @@ impl<P: consensus::Parameters> DeferredPcztBuilder<P> {
         mut rng: R,
         fee_rule: &FR,
     ) -> Result<PcztResult<P>, Error<FR::Error>> {
+        // A bundle is produced when anything was added to the pool's builder, or when its
+        // padding requires a bundle (of dummy actions) regardless: the same condition under
+        // which `get_fee` charges for the bundle's actions.
         fn in_use(builder: &orchard::builder::Builder) -> bool {
             !builder.spends().is_empty()
                 || !builder.outputs().is_empty()
                 || !builder.changes().is_empty()
+                || matches!(
+                    builder.bundle_type(),
+                    orchard::builder::BundleType::Transactional {
+                        bundle_required: true,
+                        ..
+                    }
+                )
         }
 
         let fee = self.get_fee(fee_rule).map_err(Error::Fee)?;
